@@ -135,7 +135,21 @@ Section WithBasis.
             | Ok fs =>
                 let fs := dedupn fs in          (* fs is a Python set *)
                 if k =? length bs - 1 then addS st1 fs (Some id) (Some attr)
-                else addS st1 fs None None
+                else
+                  (* a face: synthesise a name that is not the one reserved for the top simplex
+                     (the second newSimplex call necessarily returns a different name) *)
+                  let '(r1, x1) := newSimplex (getrep st1) (length bs - 1) in
+                  match x1 with
+                  | Raise e => (setrep st1 r1, Raise e)
+                  | Ok n1 =>
+                      if name_eqb n1 id then
+                        let '(r2, x2) := newSimplex r1 (length bs - 1) in
+                        match x2 with
+                        | Raise e => (setrep st1 r2, Raise e)
+                        | Ok n2 => addS (setrep st1 r2) fs (Some n2) None
+                        end
+                      else addS (setrep st1 r1) fs (Some n1) None
+                  end
             end
         end
     end.
